@@ -63,6 +63,8 @@ MODES = [
     Mode("keep", ["-k"], "c", ["f"], keep=True),
     Mode("force", ["-f"], "c", ["f"], pre="force"),
     Mode("stdout", ["-c"], "c", ["f"], stdout=True),
+    Mode("stdout-qq", ["-c", "-qq"], "c", ["f"], stdout=True),      # -qq silences the messages, never the exit status (also of the final close of standard output)
+    Mode("d-stdout-qq", ["-dc", "-qq"], "d", ["f"], stdout=True),
     Mode("two", [], "c", ["f", "g"]),
     Mode("two-T1", ["-T1"], "c", ["f", "g"]),      # single-threaded coder object shared by consecutive files
     Mode("three-T1-keep", ["-T1", "-k"], "c", ["f", "g", "f2"], keep=True, tiers=("thorough",)) if False else Mode("d-two-T1", ["-d", "-T1"], "d", ["f", "g"]),
@@ -449,6 +451,10 @@ def evaluate(ctx, mode, inp, faults, res, base):
                 bad("error-not-reported", "failing unlink(source) gave exit status %s" % res.rc)
             if not (src_ok and ts == "valid"):
                 bad("unlink-failure-state", "failing unlink(source): source ok=%s target=%s (both must be there)" % (src_ok, ts))
+        elif c.name == "fclose":
+            # the close of standard output at exit: with --stdout an exit status of 0 would promise that everything arrived
+            if mode.stdout and not (res.rc is not None and res.rc > 0):
+                bad("error-not-reported", "failing close of standard output at exit gave exit status %s" % res.rc)
         elif c.role == "list":
             if not (res.rc is not None and res.rc > 0):
                 bad("error-not-reported", "failing %s gave exit status %s" % (c.label(), res.rc))
@@ -493,6 +499,8 @@ def evaluate(ctx, mode, inp, faults, res, base):
 
 
 def kinds_for(call):
+    if call.name == "fclose":
+        return ["err"]
     ks = SIGS + ["exit"]
     if call.name != "sigaction":       # sigaction() cannot fail when its arguments are valid
         ks = ["err"] + ks
